@@ -760,6 +760,25 @@ class Analysis:
             self.event(nid, ('write', l, val, line))
             self.event(nid, ('call', f, tuple(args), line, fid))
             return T.mk('sym', 'void')
+        if f in ('mpz_addmul', 'mpz_addmul_ui', 'mpz_submul', 'mpz_submul_ui') and len(aex) == 3:
+            # dst := dst +/- a * b
+            args = [self.ev(a, st, nid) for a in aex]
+            prod = T.mk('mul', *sorted(args[1:3]))
+            val = T.mk('add', *sorted((args[0], prod))) if 'add' in f else T.mk('sub', args[0], prod)
+            l = self.loc(aex[0], st)
+            self.write(l, val, st)
+            self.event(nid, ('write', l, val, line))
+            self.event(nid, ('call', f, tuple(args), line, fid))
+            return T.mk('sym', 'void')
+        if f == 'mpz_swap' and len(aex) == 2:
+            args = [self.ev(a, st, nid) for a in aex]
+            l0, l1 = self.loc(aex[0], st), self.loc(aex[1], st)
+            self.write(l0, args[1], st)
+            self.write(l1, args[0], st)
+            self.event(nid, ('write', l0, args[1], line))
+            self.event(nid, ('write', l1, args[0], line))
+            self.event(nid, ('call', f, tuple(args), line, fid))
+            return T.mk('sym', 'void')
         if f in FPOWM and len(aex) >= 5:
             args = [self.ev(a, st, nid) for a in aex]
             val = T.mk('powm', args[2], args[3], args[4])
